@@ -118,7 +118,7 @@ def main():
             order = {"css/handlers.go": "C18 C14 C10 C07 C20 C04", "helpers.go": "C19 C04 C07 C03 C17 C02 C20", "policies.go": "C04 C07 C17 C20",
                      "policy.go": "C17 C07 C02 C01 C10 C03 C11 C12 C08 C05 C04 C20 C06 C09 C16 C15 C14 C18 C19"}.get(f, "C01 C02 C06 C08 C09 C05 C07 C03 C10 C11 C12 C20 C16 C15 C04 C17 C14").split()
             for c in [c for c in order if c in checks] + [c for c in checks if c not in order and os.environ.get("MUT_ALL") == "1"]:
-                rc, out = sh(f"VERIF_REPO={w} VERIF_OUT={outdir} ./run.sh {c} quick", cwd="/verif", timeout=3000)
+                rc, out = sh(f"VERIF_REPO={w} VERIF_OUT={outdir} ./run.sh {c} quick", cwd=os.environ.get("VERIF_DIR", "/verif"), timeout=3000)
                 if rc != 0:
                     det[c] = {"exit": rc, "sigs": sorted(set(re.findall(r"signature=(\S+)", out)))[:4], "inc": re.findall(r"INCONCLUSIVE[^\n]{0,200}", out)[:1]}
                     if rc == 1 and os.environ.get("MUT_ALL") != "1":
